@@ -30,6 +30,11 @@ def check(ctx):
     c12.pipeline_model(ctx, thorough)
     ctx.tlc_must_fail("PipelineMC", "dev.cfg", files={"dev.cfg": c12.pipe_cfg(dg="MCDgrams2", bufs="b1, b2, b3, b4", close="FALSE")},
                       expect="NoPanic", workers=16)
+    # liveness of the shutdown: with nobody reading the producer queue (producer-enabled: false) and that queue full, shutdown()
+    # still returns - the workers drop their messages; a hand-over that WAITS for room must be refuted (bound by the
+    # full-producer-queue schedule of full_queue_shutdown)
+    ctx.tlc_model("PipelineMC", "PipelineStop.cfg", timeout=900, workers=8)
+    ctx.tlc_must_fail("PipelineMC", "PipelineStopBlocks.cfg", expect="temporal", workers=8)
     ctx.tlc_model("CachePersistMC", "CachePersistMC.cfg", timeout=600)
     # ---- (1) the model's counterexample schedule on the real run() / shutdown()
     full_queue_shutdown(ctx, thorough, c12.PROTOS, mirror=False)
